@@ -12,7 +12,7 @@ import json, os, re, subprocess, sys, time
 FILES = ["handshakestate.rs", "symmetricstate.rs", "cipherstate.rs", "transportstate.rs", "stateless_transportstate.rs",
          "builder.rs", "params/mod.rs", "params/patterns.rs", "resolvers/mod.rs", "resolvers/default.rs", "resolvers/ring.rs",
          "types.rs", "utils.rs"]
-PANEL = ["C10", "C06", "C19", "C12", "C13", "C11", "C14", "C09", "C01", "C20", "C17", "C15"]
+PANEL = ["C10", "C12", "C13", "C11", "C14", "C09", "C06", "C19", "C01", "C20", "C17", "C15", "C07", "C02", "C03", "C04", "C05", "C08", "C16", "C18"]
 
 SWAPS = [(r"<=", "<"), (r">=", ">"), (r"(?<![<>=!-])<(?![<=])", "<="), (r"(?<![<>=!-])>(?![>=])", ">="), (r"==", "!="), (r"!=", "=="),
          (r"&&", "||"), (r"\|\|", "&&"), (r"\btrue\b", "false"), (r"\bfalse\b", "true"),
@@ -120,8 +120,7 @@ def run(iso, outdir, results, part):
                     r = subprocess.run([V + "/check", p, "--tier", "quick"], cwd=V, env=env, stdout=subprocess.PIPE, stderr=subprocess.STDOUT, text=True)
                     if r.returncode != 0:
                         caught.append(p)
-                        if len(caught) >= 2:
-                            break
+                        break
                 res[m["id"]] = dict(m, status="caught" if caught else "SURVIVED", caught_by=caught, wall_s=round(time.time() - t0))
         print(m["id"], m["file"], m["line"], res[m["id"]]["status"], res[m["id"]].get("caught_by", ""), flush=True)
         json.dump(res, open(results, "w"), indent=1)
